@@ -141,6 +141,13 @@ func watchdog(rep *Report) {
 			if cs := engine.Current; cs != nil {
 				t := cs.Trace.String()
 				rep.Failures[len(rep.Failures)-1].Trace = t
+				// what the oracles had already reported in the program that hangs (usually the cause)
+				for k, f := range cs.Failures {
+					if k >= 6 {
+						break
+					}
+					rep.Failures = append(rep.Failures, FailureRec{Prop: f.Prop, Kind: f.Kind, Msg: f.Msg, Seed: rep.Seed, Program: int(prog), Step: f.Step})
+				}
 				if *fTrace != "" {
 					os.WriteFile(*fTrace, []byte(t), 0o644)
 				}
